@@ -67,6 +67,7 @@ def run(ctx):
     r6(ctx, slots)
     ctx.min_instances('C12.R6', 4)
     r7(ctx)
+    r8(ctx)
     ctx.min_instances('C12.R7', 8)
     ctx.min_instances('C12.R1', 240)
     ctx.min_instances('C12.R2', 20)
@@ -986,3 +987,62 @@ def r7(ctx):
     if n < 8:
         raise AnalysisError('C12.R7: fewer regime arguments than expected '
                             '(%d)' % n)
+
+
+def r8(ctx):
+    """The equations the flow-split iteration solves: per subchannel type the
+    loss coefficient is f_i L / De_i + K_i (friction over the subchannel's
+    own hydraulic diameter plus grid loss), the type Reynolds number is
+    Re x_i De_i / De_b, equal pressure drop gives x_i / x_2 =
+    sqrt(t_2 / t_i) and mass conservation x_2 = 1 / sum s_i x_i/x_2."""
+    it = ctx.repo.func('correlations.flowsplit_ctd', '_iterate')
+    P = it.params
+    Re, s_, De_i, De_b = P[0], P[1], P[2], P[3]
+    loops = [n for n in it.node.body if isinstance(n, ast.For)]
+    if len(loops) != 1:
+        raise AnalysisError('_iterate: iteration loop')
+    lp = loops[0]
+
+    def local_def(name):
+        d = [a for a in ast.walk(lp) if isinstance(a, ast.Assign)
+             and len(a.targets) == 1 and isinstance(a.targets[0], ast.Name)
+             and a.targets[0].id == name]
+        return d[0] if len(d) == 1 else None
+    keep = tuple(P) + ('ff', 'x1', 'x2', 'x3', 't', 'x1x2', 'x3x2', 'x2_new')
+    atoms = {'ff': 'f', 'GLC_i': 'K', 'L': 'L', De_i: 'Dei', De_b: 'Deb',
+             Re: 'Re', 'np.array([x1, x2, x3])': 'x'}
+    want = {
+        't': Rat.sym('f') * Rat.sym('L') / Rat.sym('Dei') + Rat.sym('K'),
+        'Re_i': Rat.sym('Re') * Rat.sym('x') * Rat.sym('Dei') / Rat.sym('Deb'),
+    }
+    for name, w in want.items():
+        a = local_def(name)
+        ok = a is not None
+        got = None
+        if ok:
+            e = U.value_at(it.node, a.value, a.lineno, keep=keep)
+            try:
+                got = from_ast(e, atoms, auto=True)
+                ok = got.equals(w)
+            except NotPolynomial:
+                ok = False
+        ctx.require(ok, 'C12.R8', it, a if a is not None else lp,
+                    'flow-split iteration: %s must be %s%s'
+                    % (name, {'t': 'f_i L / De_i + K_i (loss coefficient of '
+                              'subchannel type i)',
+                              'Re_i': 'Re x_i De_i / De_b'}[name],
+                       '; got %r / %r' % (got.n, got.d)
+                       if got is not None and not ok else ''),
+                    key='%s | %s' % (it.full, name))
+    pats = [('x1x2', 'x1x2 = np.sqrt(t[1] / t[0])'),
+            ('x3x2', 'x3x2 = np.sqrt(t[1] / t[2])'),
+            ('x2_new', 'x2_new = 1 / (%s[1] + %s[0] * x1x2 + %s[2] * x3x2)'
+             % (s_, s_, s_)),
+            ('x1_new', 'x1_new = x1x2 * x2_new'),
+            ('x3_new', 'x3_new = x3x2 * x2_new')]
+    for name, pat in pats:
+        h = find_all(pat, lp, 'stmt')
+        ctx.require(len(h) == 1, 'C12.R8', it, h[0][0] if h else lp,
+                    'flow-split iteration: expected `%s` (equal pressure '
+                    'drop / mass conservation)' % pat,
+                    key='%s | %s' % (it.full, name))
